@@ -348,3 +348,84 @@ def tlv_any(vc):
     vc.prove("post.no-empty-block", vc.And(*[vc.len(b) >= 1 for b in tail]) if tail else True)
     vc.prove("post.blocks<=117-when-every-entry-fits", vc.And(*[vc.len(b) <= 117 for b in tail]) if tail else True)
     vc.cover("encoded")
+
+
+# ---------------------------------------------------------------------------------------
+# The COMPONENT (Bf3File.set_config with the real conf_dict_to_tlv): the blob is split again by an independent
+# reader of the framing (length byte, block, ..., one closing 00) and decoded; extra blocks must come back unchanged.
+def split_component(blob):
+    """blob := ( LEN block[LEN] )* 00   - LEN 1..255; nothing after the closing 00"""
+    blocks, pos = [], 0
+    while True:
+        if pos >= len(blob):
+            raise tlvcfg.TlvError("ran off the end without a closing 00")
+        ln = blob[pos]
+        pos += 1
+        if ln == 0:
+            break
+        if pos + ln > len(blob):
+            raise tlvcfg.TlvError("block claims %d bytes, %d left" % (ln, len(blob) - pos))
+        blocks.append(bytes(blob[pos:pos + ln]))
+        pos += ln
+    if pos != len(blob):
+        raise tlvcfg.TlvError("%d bytes after the closing 00" % (len(blob) - pos))
+    return blocks
+
+
+TAIL_CONTENTS = (b"", b"\x00", b"\x00\x00", b"\x07\x00", b"\xff", b"\xff\xff", b"\x00\xff", b"\x01", b" ", b"\n", b"\t \r\n")
+TAIL_KEYS = (0x0000, 0x0200, 0x0600, 0x00FF, 0xFF00, 0xFFFF, 0x0620, 0x2020, 0x0A0A)
+EXTRAS = ((), (b"\x02\x06\x00",), (b"\x01\x06\x20\x01\x01\x00",), (b"\x02\xff\xff",), (b"\x02\x00\x00", b"\x02\x00\x00"),
+          (b"\x01\x02\x03\x04\x01\x20",), (b"\x02\x0a\x0a",))
+
+
+def fam_component(seed, tier):
+    """every way the component can END (last entry a set with content from TAIL_CONTENTS / a delete-value / a delete-key
+    from TAIL_KEYS / an extra block) x what stands before it; then the large random dictionaries"""
+    for ex in EXTRAS:
+        yield dict(big=[], extra=list(ex))
+        for key in TAIL_KEYS:
+            yield dict(big=[["delkey", key, 0, b""]], extra=list(ex))
+            yield dict(big=[["set", 1, 1, b"ab"], ["delkey", key, 0, b""]], extra=list(ex))
+            yield dict(big=[["delval", key, key & 0xFE, b""]], extra=list(ex))
+            for c in TAIL_CONTENTS:
+                yield dict(big=[["set", key, key & 0xFE, c]], extra=list(ex))
+                yield dict(big=[["delkey", 5, 0, b""], ["set", 1, 1, b"ab"], ["set", key, (key >> 8) & 0xFE, c]], extra=list(ex))
+    for i, d in enumerate(fam_big(seed, tier)):
+        d["extra"] = list(EXTRAS[i % len(EXTRAS)])
+        yield d
+
+
+@proof("C10/set_config.component-splits-and-decodes", functions=[(MOD, "Bf3File.set_config"), (MOD, "conf_dict_to_tlv")],
+       family=fam_component, bounded_only=True)
+def component_decodes(vc):
+    M = vc.module(MOD)
+    d = {}
+    for k, key, val, content in vc._get("big"):
+        d[(key, None if k == "delkey" else val)] = None if k != "set" else content
+    extra = [bytes(e) for e in vc._get("extra")]
+    f = M.Bf3File({}, [])
+    out = vc.call(f.set_config, dict(d), list(extra))
+    vc.prove("returns", out.returned, repr(out.exc))
+    if not out.returned:
+        return
+    c = f.components[-1]
+    vc.prove("tagged-encrypted-TLV-configuration-requesting-reboot",
+             dict(c.description) == {0xC3: b"\x03", 0xC2: b"\x02", 0xC1: b"\x03", 0xC5: b"\x01"}
+             and c.encrypt_by_session_key is True and c.actual_len == len(c.blob))
+    sp = vc.call(split_component, bytes(c.blob))
+    vc.prove("length-prefixed-blocks-closed-by-a-single-00", sp.returned, repr(sp.exc))
+    if not sp.returned:
+        return
+    blocks = sp.value
+    own = blocks[:len(blocks) - len(extra)] if extra else blocks
+    vc.prove("extra-blocks-follow-unchanged", (blocks[len(blocks) - len(extra):] if extra else []) == extra)
+    vc.prove("no-empty-block", all(len(b) > 0 for b in own))
+    dec = vc.call(tlvcfg.decode, own)
+    vc.prove("decodes-to-the-dictionary's-operations", dec.returned and dec.value == tlvcfg.expected_ops(d), repr(dec.exc))
+
+
+# set_config's framing for symbolic blocks (proved once under C06 / C11) is an obligation of this property too
+from pyvc.harness import reuse as _reuse
+from contracts import C06 as _C06x, C11 as _C11x  # noqa: E402,F401  (defines the proofs reused below)
+_reuse("C06/set_config.component", "C10/set_config.blob=length-prefixed-blocks+00")
+_reuse("C11/set_config.any-number-of-components", "C10/set_config.any-number-of-components")
